@@ -209,7 +209,9 @@ def standard_run(ctx, prop, kinds, n_quick, n_thorough, regress_names=(), with_o
         report.count("corpus", name)
         if not r["ok"]:
             violations.append({"kind": "corpus", "case": name, "detail": r["detail"]})
-    n = n_quick if ctx["tier"] == "quick" else n_thorough
+    n = n_quick * nv.boost("engine") if ctx["tier"] == "quick" else n_thorough
+    report.cov["budget_boost"] = nv.boost("engine")
+    report.cov["source_files_changed_since_validation"] = nv.changed_files()
     cases = gen_cases(rng, n, with_opt=with_opt, cons=cons, limit_prob=limit_prob, observe=observe)
     d, v = solver_sweep(ctx, cases, kinds, tag=prop)
     corr += d
